@@ -11,6 +11,7 @@ import (
 	"fmt"
 	"io"
 	"net/http"
+	"sort"
 	"strconv"
 	"strings"
 )
@@ -22,6 +23,9 @@ type Record struct {
 	Priority int
 	Target   string
 	Value    string
+	// Other holds the members of the record outside "data" as the API stores them (ttl, proxied, comment, ...): a PATCH that
+	// carries any of them overwrites it, like the real API does. A record starts with a TTL set by hand (300).
+	Other map[string]string
 }
 
 type Zone struct {
@@ -192,6 +196,8 @@ func (a *API) roundTrip(req *http.Request) (*http.Response, error) {
 		if err := json.Unmarshal(body, &in); err != nil {
 			return jsonResp(req, 400, `{"success":false,"errors":[{"code":9207,"message":"bad body"}]}`), nil
 		}
+		var members map[string]json.RawMessage
+		json.Unmarshal(body, &members)
 		for _, zz := range a.Zones {
 			if zz.ID != zid {
 				continue
@@ -199,6 +205,14 @@ func (a *API) roundTrip(req *http.Request) (*http.Response, error) {
 			for _, r := range zz.Records {
 				if r.ID == rid {
 					r.Priority, r.Target, r.Value = in.Data.Priority, in.Data.Target, in.Data.Value
+					for k, v := range members {
+						if k != "data" {
+							if r.Other == nil {
+								r.Other = map[string]string{}
+							}
+							r.Other[k] = string(v) // (a PATCH updates exactly the members it names)
+						}
+					}
 					return jsonResp(req, 200, `{"success":true,"errors":[],"messages":[],"result":{"id":"`+rid+`"}}`), nil
 				}
 			}
@@ -228,6 +242,28 @@ func (a *API) Snapshot() map[string]string {
 				key += "#" + r.Type + "#" + r.ID
 			}
 			m[key] = fmt.Sprintf("%d|%s|%s", r.Priority, r.Target, r.Value)
+		}
+	}
+	return m
+}
+
+// OtherMembers renders, per record, the members outside "data" that PATCH requests have set so far ("" = none).
+func (a *API) OtherMembers() map[string]string {
+	m := map[string]string{}
+	for _, z := range a.Zones {
+		for _, r := range z.Records {
+			var ks []string
+			for k := range r.Other {
+				ks = append(ks, k)
+			}
+			sort.Strings(ks)
+			var parts []string
+			for _, k := range ks {
+				parts = append(parts, k+"="+r.Other[k])
+			}
+			if len(parts) > 0 {
+				m[z.Name+"|"+r.Name+"#"+r.ID] = strings.Join(parts, " ")
+			}
 		}
 	}
 	return m
